@@ -35,7 +35,17 @@ func (t *capTransport) take() [][]byte {
 	defer t.mu.Unlock()
 	o := t.sent
 	t.sent = nil
+	t.sentTo = nil
 	return o
+}
+
+// takeTo returns and clears the recorded packets together with their destinations.
+func (t *capTransport) takeTo() ([][]byte, []string) {
+	t.mu.Lock()
+	defer t.mu.Unlock()
+	o, a := t.sent, t.sentTo
+	t.sent, t.sentTo = nil, nil
+	return o, a
 }
 
 func (t *capTransport) DialTimeout(addr string, timeout time.Duration) (net.Conn, error) {
